@@ -23,6 +23,10 @@ static inline uint64_t mix(uint64_t x, uint64_t v)
 double app_ticks_to_time(uint64_t ticks) { return ldexp((double)ticks, -(int)app_prog.grid_exp); }
 uint64_t app_time_to_ticks(double t) { return (uint64_t)ldexp(t, (int)app_prog.grid_exp); }
 
+static struct app_state **app_state_ptr;
+static uint64_t app_nostate_mod;
+static int app_keep_ticking;
+
 int app_load(const char *path)
 {
 	FILE *f = fopen(path, "r");
@@ -78,6 +82,9 @@ int app_load(const char *path)
 	app_final_cnt = calloc(p->lps, sizeof(uint64_t));
 	app_init_calls = calloc(p->lps, sizeof(uint64_t));
 	app_fini_calls = calloc(p->lps, sizeof(uint64_t));
+	app_state_ptr = calloc(p->lps, sizeof(*app_state_ptr));
+	app_keep_ticking = getenv("VERIF_KEEP_TICKING") != NULL;
+	app_nostate_mod = getenv("VERIF_NOSTATE_MOD") ? strtoull(getenv("VERIF_NOSTATE_MOD"), NULL, 0) : 0;
 	return 0;
 }
 
@@ -119,22 +126,33 @@ static void fill(uint64_t *p, uint64_t seed, uint64_t from, uint64_t to)
 		p[i] = seed + i * GOLD2;
 }
 
+/* LPs that never call SetState() (VERIF_NOSTATE_MOD=k: every LP with me % k == k - 1): their state block still lives in rollbackable
+   memory at an address fixed at LP_INIT, which is kept here; a model is free not to use the state pointer of the API */
+const struct app_state *app_state_of(lp_id_t me, const void *st)
+{
+	return st ? (const struct app_state *)st : (app_state_ptr ? app_state_ptr[me] : NULL);
+}
+
 bool app_can_end(lp_id_t me, const void *st)
 {
-	const struct app_state *s = st;
+	const struct app_state *s = app_state_of(me, st);
+	if(!s)
+		return false;
 	return s->cnt >= app_prog.targets[me];
 }
 
 void app_process(lp_id_t me, simtime_t now, unsigned type, const void *pl, unsigned size, void *st)
 {
-	struct app_state *s = st;
+	struct app_state *s = (struct app_state *)app_state_of(me, st);
 	unsigned char buf[4096];
 	if(type == LP_INIT) {
 		__atomic_fetch_add(&app_init_calls[me], 1, __ATOMIC_RELAXED);
 		s = rs_malloc(sizeof(*s));
 		memset(s, 0, sizeof(*s));
 		s->acc = mix(SEEDC, me);
-		SetState(s);
+		app_state_ptr[me] = s;
+		if(!(app_nostate_mod && me % app_nostate_mod == app_nostate_mod - 1))
+			SetState(s);
 		uint64_t j = 0;
 		for(int i = 0; i < app_prog.ninits; ++i) {
 			const struct app_init *in = &app_prog.inits[i];
@@ -154,8 +172,13 @@ void app_process(lp_id_t me, simtime_t now, unsigned type, const void *pl, unsig
 	uint64_t ticks = app_time_to_ticks(now);
 	if(app_dispatch_hook)
 		app_dispatch_hook(me, ticks, type, pl, size);
-	if(s->cnt >= app_prog.targets[me])
+	if(s->cnt >= app_prog.targets[me]) {
+		/* VERIF_KEEP_TICKING=1: an LP whose predicate holds keeps one self-scheduled event alive, so the model never runs out of events
+		   and the run can only end through the termination detection (used by the liveness probes of C08 only: no reference run) */
+		if(app_keep_ticking)
+			ScheduleNewEvent(me, now + app_ticks_to_time(1), type, NULL, 0);
 		return;
+	}
 	uint64_t a = mix(mix(mix(s->acc, ticks), type), size);
 	a = digest_payload(a, pl, size);
 	const struct app_row *r = lookup_row(type, s->cnt % app_prog.ncls);
